@@ -90,6 +90,11 @@ impl Bigram {
         sum
     }
 
+    /// Per-position contributions of the defining sum for one id pair.
+    pub fn contribs(&self, r: usize, l: usize) -> Vec<i64> {
+        (0..self.num_templates()).map(|p| self.cost_over(r, l, &[p])).collect()
+    }
+
     /// Sum restricted to a subset of template positions (used for the dual connector's clamp).
     pub fn cost_over(&self, r: usize, l: usize, positions: &[usize]) -> i64 {
         let mut table: HashMap<(&str, &str), i64> = HashMap::new();
